@@ -141,11 +141,13 @@ class Interp:
         return r
 
     def model_for(self, extra=None):
+        t = time.time()
         self.solver.push()
         if extra is not None: self.solver.add(extra)
         r = self.solver.check()
         m = self.solver.model() if r == z3.sat else None
         self.solver.pop()
+        self.tot['solver_s'] += time.time() - t; self.tot['queries'] += 1
         return r, m
 
     def branch(self, cond):
